@@ -54,10 +54,15 @@ def run_ir(R, name):
         R.structural(f"{nm}: jaxpr has no side effects (effects == {{}}, no callback/IO primitive)", not j.effects and not bad,
                      {"config": name, "effects": str(j.effects), "primitives": bad})
     # history on the same object: other keys, other actions, jit, a short rollout
-    s, t = jax.jit(env.reset)(jax.random.PRNGKey(7))
-    for i in range(3):
-        s, t = jax.jit(env.step)(s, a0)
-    env.reset(jax.random.PRNGKey(11))
+    try:
+        s, t = jax.jit(env.reset)(jax.random.PRNGKey(7))
+        for i in range(3):
+            s, t = jax.jit(env.step)(s, a0)
+        env.reset(jax.random.PRNGKey(11))
+    except Exception as e:  # noqa  (e.g. a value cached during an earlier trace: UnexpectedTracerError)
+        R.structural("reset/step can be called eagerly after having been traced/jitted on the same instance (no state leaks out of a trace)", False,
+                     {"config": name, "error": f"{type(e).__name__}: {str(e)[:200]}"})
+        return
     _ = env.observation_spec, env.action_spec
     j_step2 = jax.make_jaxpr(env.step)(st_shape, a0)
     j_reset2 = jax.make_jaxpr(env.reset)(key)
